@@ -6,7 +6,7 @@ cd "$(dirname "$0")"
 export GOFLAGS=-mod=mod GOPROXY=off
 mkdir -p work evidence
 ./coq/gen_project.sh
-(cd coq && timeout 3000 make -j16 >/dev/null 2>../work/coq_setup.log || { tail -30 ../work/coq_setup.log; exit 1; })
+(cd coq && timeout 3000 make -k -j16 >/dev/null 2>../work/coq_setup.log || { tail -30 ../work/coq_setup.log; exit 1; })
 python3 - <<'PY'
 import sys
 sys.path.insert(0, '.')
